@@ -141,6 +141,8 @@ package memdb
 //@ func (*dbIter).Seek
 //@   props C14 C02 C18 C09
 //@   safety off
+//@   requires [C02,C14:an-iterator-without-a-position-shows-nothing] i.node != 0 || (isnil(i.key) && isnil(i.value))
+//@   ensures [C02,C14:a-move-that-finds-nothing-leaves-no-position] (!result && !old(i.BasicReleaser.released)) ==> (i.node == 0 && isnil(i.key) && isnil(i.value))
 //@   requires [C09,C14:the-iterator-is-not-moved-by-a-goroutine-that-holds-the-read-lock] i.p == nil || rheld(i.p.mu) == 0
 //@   ensures [C02,C14,C18:a-released-iterator-reports-that-it-was-released] old(i.BasicReleaser.released) ==> (!result && i.err == ErrIterReleased)
 //@   requires !sameblock(i.p.nodeData, i.p.prevNode[:])
@@ -153,6 +155,8 @@ package memdb
 //@ func (*dbIter).First
 //@   props C14 C02 C18 C09
 //@   safety off
+//@   requires [C02,C14:an-iterator-without-a-position-shows-nothing] i.node != 0 || (isnil(i.key) && isnil(i.value))
+//@   ensures [C02,C14:a-move-that-finds-nothing-leaves-no-position] (!result && !old(i.BasicReleaser.released)) ==> (i.node == 0 && isnil(i.key) && isnil(i.value))
 //@   requires [C09,C14:the-iterator-is-not-moved-by-a-goroutine-that-holds-the-read-lock] i.p == nil || rheld(i.p.mu) == 0
 //@   ensures [C02,C14,C18:a-released-iterator-reports-that-it-was-released] old(i.BasicReleaser.released) ==> (!result && i.err == ErrIterReleased)
 //@   requires !sameblock(i.p.nodeData, i.p.prevNode[:])
@@ -165,6 +169,8 @@ package memdb
 //@ func (*dbIter).Next
 //@   props C14 C02 C18 C09
 //@   safety off
+//@   requires [C02,C14:an-iterator-without-a-position-shows-nothing] i.node != 0 || (isnil(i.key) && isnil(i.value))
+//@   ensures [C02,C14:a-move-that-finds-nothing-leaves-no-position] (!result && !old(i.BasicReleaser.released)) ==> (i.node == 0 && isnil(i.key) && isnil(i.value))
 //@   requires [C09,C14:the-iterator-is-not-moved-by-a-goroutine-that-holds-the-read-lock] i.p == nil || rheld(i.p.mu) == 0
 //@   ensures [C02,C14,C18:a-released-iterator-reports-that-it-was-released] old(i.BasicReleaser.released) ==> (!result && i.err == ErrIterReleased)
 //@   requires !sameblock(i.p.nodeData, i.p.prevNode[:])
@@ -176,6 +182,8 @@ package memdb
 //@ func (*dbIter).Last
 //@   props C14 C02 C18 C09
 //@   safety off
+//@   requires [C02,C14:an-iterator-without-a-position-shows-nothing] i.node != 0 || (isnil(i.key) && isnil(i.value))
+//@   ensures [C02,C14:a-move-that-finds-nothing-leaves-no-position] (!result && !old(i.BasicReleaser.released)) ==> (i.node == 0 && isnil(i.key) && isnil(i.value))
 //@   requires [C09,C14:the-iterator-is-not-moved-by-a-goroutine-that-holds-the-read-lock] i.p == nil || rheld(i.p.mu) == 0
 //@   ensures [C02,C14,C18:a-released-iterator-reports-that-it-was-released] old(i.BasicReleaser.released) ==> (!result && i.err == ErrIterReleased)
 //@   ensures [C02,C14:facing-backward-after-a-backward-move] (old(i.err) == nil && i.err == nil) ==> !i.forward
@@ -188,6 +196,8 @@ package memdb
 //@ func (*dbIter).Prev
 //@   props C14 C02 C18 C09
 //@   safety off
+//@   requires [C02,C14:an-iterator-without-a-position-shows-nothing] i.node != 0 || (isnil(i.key) && isnil(i.value))
+//@   ensures [C02,C14:a-move-that-finds-nothing-leaves-no-position] (!result && !old(i.BasicReleaser.released)) ==> (i.node == 0 && isnil(i.key) && isnil(i.value))
 //@   requires [C09,C14:the-iterator-is-not-moved-by-a-goroutine-that-holds-the-read-lock] i.p == nil || rheld(i.p.mu) == 0
 //@   ensures [C02,C14,C18:a-released-iterator-reports-that-it-was-released] old(i.BasicReleaser.released) ==> (!result && i.err == ErrIterReleased)
 //@   ensures [C02,C14:facing-backward-after-a-backward-move] (old(i.err) == nil && i.err == nil) ==> !i.forward
